@@ -3,6 +3,7 @@ package executor
 import (
 	"context"
 	"fmt"
+	"sync"
 
 	"github.com/vektah/gqlparser/v2"
 	"github.com/vektah/gqlparser/v2/ast"
@@ -28,14 +29,19 @@ type c03Req struct {
 	docValid bool // the document alone parses and validates (what may be cached)
 }
 
-var c03Log []string
+var (
+	c03Log   []string
+	c03LogMu sync.Mutex // hooks of concurrent requests log side by side
+)
 
 func c03Ev(name string, idx int) {
 	s := name
 	if idx >= 0 {
 		s = fmt.Sprintf("%s %d", name, idx)
 	}
+	c03LogMu.Lock()
 	c03Log = append(c03Log, s)
+	c03LogMu.Unlock()
 	zzsym.Event(s)
 }
 
@@ -519,7 +525,14 @@ func Harness_C03_concurrent() {
 		e.SetDisableSuggestion(true)
 	}
 	if zzsym.Choice("cache", 2) == 1 {
-		e.SetQueryCache(graphql.MapCache[*ast.QueryDocument]{})
+		// a cache that may be shared by concurrent requests (graphql.MapCache is a bare map, meant for tests of one request at a time)
+		e.SetQueryCache(lru.New[*ast.QueryDocument](10))
+	}
+	// extensions registered before the first request: a gate that may reject everything, and an operation-context mutator
+	gate := zzsym.Choice("gate", 3) // 0 no extension, 1 a parameter mutator that lets everything through, 2 one that rejects everything
+	if gate > 0 {
+		e.Use(&c03ParamMutator{idx: 0, reject: gate == 2})
+		e.Use(&c03CtxMutator{idx: 1})
 	}
 	reqs := []c03Req{c03Corpus[0], c03Corpus[5]}
 	ok := make([]bool, 2)
@@ -534,7 +547,11 @@ func Harness_C03_concurrent() {
 	}
 	<-done
 	<-done
-	zzsym.Assert(ok[0] && !ok[1], "concurrent requests get the verdicts they get alone")
+	if gate == 2 {
+		zzsym.Assert(!ok[0] && !ok[1], "a gate that rejects everything rejects concurrent first requests too")
+	} else {
+		zzsym.Assert(ok[0] && !ok[1], "concurrent requests get the verdicts they get alone")
+	}
 	zzsym.Reach("c03.concurrent")
 }
 
